@@ -296,6 +296,10 @@ func (ctrl *DefaultController) importLog(ctx context.Context, store Store, log l
 				}
 			case ledger.CreatedTransaction:
 				logging.FromContext(ctx).Debugf("Importing transaction %d", *payload.Transaction.ID)
+				// an imported log is client input: hold its postings to the same rules as any other write
+				if i, err := payload.Transaction.Postings.Validate(); err != nil {
+					return nil, NewErrImport(fmt.Errorf("invalid posting %d: %w", i, err))
+				}
 				var schema *ledger.Schema
 				var err error
 				if log.SchemaVersion != "" {
@@ -313,6 +317,9 @@ func (ctrl *DefaultController) importLog(ctx context.Context, store Store, log l
 				logging.FromContext(ctx).Debugf("Imported transaction %d", *payload.Transaction.ID)
 			case ledger.RevertedTransaction:
 				logging.FromContext(ctx).Debugf("Reverting transaction %d", *payload.RevertedTransaction.ID)
+				if i, err := payload.RevertTransaction.Postings.Validate(); err != nil {
+					return nil, NewErrImport(fmt.Errorf("invalid posting %d: %w", i, err))
+				}
 				_, _, err := store.RevertTransaction(
 					ctx,
 					*payload.RevertedTransaction.ID,
